@@ -152,6 +152,18 @@ def main(tier):
                 run.violation("vm-modes:min+max-mode-consumed-randomness", rep)
             elif mb.group(1) != m0.group(1):
                 run.violation("vm-modes:min+max-mode-is-not-the-model's-min-mode", rep)
+        # a bound the host keeps (the result object of a mode run) is still that bound after the same VM has rolled again
+        kl = [f"retkeep {cfgx}{md},L30000 {seeds[i]} {hx(src)} {hx(progs[(i + 1) % len(progs)][1] if progs[(i + 1) % len(progs)][0] in cfgx or not progs[(i + 1) % len(progs)][0] else src)}"
+              for i, (cfgx, src) in enumerate(progs[:40]) for md in ("m", "M")]
+        for ln, g in run.go_only("retkeep", kl, go_timeout=60):
+            m = re.match(r"before=(\S+) after=(\S+) var=(\S+) \| ", g)
+            if not m:
+                continue
+            run.nontriv(("retkeep", ln))
+            if m.group(1) != m.group(2):
+                t = ln.split()
+                run.violation("vm-modes:kept-bound-changed-by-a-later-run", {"cfg": t[1], "first": unhx(t[3]).decode(), "second": unhx(t[4]).decode(),
+                                                                              "kept_before": unhx(m.group(1)).decode(), "kept_after": unhx(m.group(2)).decode()})
         # documented size limit: one directed probe
         out = run.go_only("vm-limit", [f"runseq {m},L30000 {r.getrandbits(128):032x} {hx('d9223372036854775807')}" for m in ("m", "-", "M")])
         ms = [re.match(r"ok i(-?\d+) ", x[1]) for x in out]
